@@ -279,6 +279,7 @@ def main():
     chk = common.Check(PID, 'exploration')
     singles = [(i,) for i in range(len(VARIANTS))] + [(i, 'long') for i, v in enumerate(VARIANTS) if v[0] in ('kdf', 'cipher')]
     failing_single = {}
+    accepted_single = {}
     n = acc = rej = 0
     for idxs, accepted, problem in common.pmap(run_case, singles, ordered=False, chunksize=2):
         if accepted is None:
@@ -286,6 +287,8 @@ def main():
         n += 1
         acc += bool(accepted)
         rej += not accepted
+        if len(idxs) == 1:
+            accepted_single[idxs[0]] = bool(accepted)
         if problem:
             sec, label, _ = VARIANTS[idxs[0]]
             failing_single[idxs[0]] = problem[0]
@@ -311,6 +314,20 @@ def main():
                               {'deviations': [f'{VARIANTS[k][0]}:{VARIANTS[k][1]}' for k in idxs], 'detail': problem[1]})
             else:
                 chk.violation({'section': 'pair', 'deviation': ' + '.join(f'{VARIANTS[k][0]}:{VARIANTS[k][1]}' for k in idxs),
+                               'outcome': problem[0]},
+                              {'deviations': [f'{VARIANTS[k][0]}:{VARIANTS[k][1]}' for k in idxs], 'detail': problem[1]})
+    # triples of individually accepted deviations from three different sections (thorough)
+    if t == 'thorough':
+        ok_single = [i for i in range(len(VARIANTS)) if (i,) and i not in failing_single and accepted_single.get(i)]
+        triples = [c for c in itertools.combinations(ok_single, 3) if len({VARIANTS[k][0] for k in c}) == 3]
+        for idxs, accepted, problem in common.pmap(run_case, common.shuffled(triples, 't3'), ordered=False, chunksize=16):
+            if accepted is None:
+                continue
+            n += 1
+            acc += bool(accepted)
+            rej += not accepted
+            if problem:
+                chk.violation({'section': 'triple', 'deviation': ' + '.join(f'{VARIANTS[k][0]}:{VARIANTS[k][1]}' for k in idxs),
                                'outcome': problem[0]},
                               {'deviations': [f'{VARIANTS[k][0]}:{VARIANTS[k][1]}' for k in idxs], 'detail': problem[1]})
     nak = 0
